@@ -54,14 +54,14 @@ class Stream:
             n = len(self.buf) - self.pos
         out = self.buf[self.pos : self.pos + n]
         self.pos += len(out)
-        if any(isinstance(x, FloatBytes) or is_symbolic(x) for x in out):  # opaque float blocks or symbolic byte values
+        if any(isinstance(x, FloatBytes) for x in out):  # opaque float blocks cannot live in a real `bytes`
             return ByteSeq(out)
-        return bytes(out)
+        return bytes(out)  # (a symbolic bytes object when some byte values are symbolic)
 
     def peek(self, n=1):
         out = self.buf[self.pos : self.pos + n]
         if any(isinstance(x, FloatBytes) or is_symbolic(x) for x in out):
-            return ByteSeq(out)
+            return ByteSeq(out)  # only its emptiness is ever inspected (Serializer.atEnd)
         return bytes(out)
 
     def getvalue(self):
